@@ -3,7 +3,7 @@
 listed under not_applicable with its reason."""
 import json, os
 
-IMPLEMENTED = ["C05"]
+IMPLEMENTED = ["C05", "C08", "C09", "C10", "C11", "C12", "C13", "C14", "C16", "C17", "C18", "C19"]
 
 NA = {
  "C01": "pure function of (seed, position): 'output equals the published reference for every seed and position' has no schedule, clock, fault or history to explore; deterministic simulation would only be input sampling against a re-implementation (needs bit-vector proof / induction, a different technique). See DESIGN.md section 5.",
@@ -20,6 +20,39 @@ CHECKS = {
  "C05": dict(cat="exploration", ref="3/C05", technique="deterministic simulation: seeded search over operation histories, twin-stream reference model",
    text="Seeded exploration of operation histories (next_u32/next_u64/fill_bytes(n), every buffer index and half flag as start state, lengths around every refill boundary) on all 20 generator types; every returned value and byte is compared with the projection table of the statement applied to the word stream of an identically seeded twin driven by native-width calls only, plus a 2-block drain that proves nothing was skipped or repeated. Sampled histories: evidence, not proof; the space (all interleavings x all n x all seeds) is unbounded, so exploration is the honest level.",
    note="Trusts the harness model (projection table transcribed from the statement), the twin's native-width stream as definition of W, rustc/cargo. JitterRng runs over the simulated clock."),
+"C08": dict(cat="exploration", ref="3/C08", technique="deterministic simulation: seeded search over seeding routes with a stuck-at-zero source-RNG fault (SimSource), documented-replacement oracle",
+   text="Seeded exploration of every seeding route (from_seed, seed_from_u64, from_rng, try_from_rng) of the 14 linear xoshiro-family types and XorShiftRng, with the source-RNG seam injecting k=0..3 leading all-zero blocks and sparse blocks; oracles: state image never all-zero and outputs not all zero, zero seed == documented replacement (== and probe history), exact source consumption (1 block remapped / k+1 blocks redrawn), non-zero seeds verbatim and pairwise distinct. The seed space cannot be enumerated; the zero/sparse structure that matters is targeted directly, the rest sampled.",
+   note="Trusts: bincode image of these plain-data structs = state words (LE); the documented replacement values; harness SimSource."),
+ "C09": dict(cat="fault_enumeration", ref="3/C09", technique="deterministic simulation with fault injection: every failure position of a fallible source RNG enumerated (clean error and torn fill), route-agreement and expansion-model oracles",
+   text="Per sampled source stream and type (19 seedable types) the space of fault positions is enumerated completely: error at call c for every needed call (+1 beyond), torn fill after j bytes for every j (8..64 positions, 1024/2048 for ISAAC): Err carrying the injected token before the last needed byte, Ok == from_rng after it. Fault-free: from_rng == try_from_rng == from_seed(bytes delivered), exact source accounting, ISAAC state image == harness randinit model (two passes), seed_from_u64 == documented expansion (SplitMix64 stream / PCG32 model / randinit one pass). Streams and u64 arguments are sampled, fault positions are not.",
+   note="Trusts the harness models (PCG32, randinit) written from rand_core's/Jenkins' documentation, the repository's SplitMix64 as the 'SplitMix64 stream', bincode image layout of the ISAAC cores."),
+ "C10": dict(cat="exploration", ref="3/C10", technique="deterministic simulation: fork (clone) at arbitrary history points, lock-step twin execution, bit flips in stored state to manufacture near-equal pairs",
+   text="Seeded exploration: clone() at arbitrary points of a history (mid-block, half pending) then lock-step suffixes incl. jump/long_jump with == re-checked after every op; converse direction on manufactured pairs (one side advanced by different call shapes; one flipped bit in the stored image of a core or non-buffered generator; cores after k extra generate() calls): whenever == says equal the futures must be identical; Hc128Rng at different read positions of one block must be unequal; IsaacArray == on single-element differences.",
+   note="'Identical futures' is decided by a finite probe suffix plus a two-block drain. Bit flips never touch BlockRng's own index/half_used (dependency code)."),
+ "C11": dict(cat="fault_enumeration", ref="3/C11", technique="deterministic simulation with crash/restart fault injection: snapshot crash point enumerated after every operation, restored copy vs uninterrupted twin",
+   text="Crash/restart where only the serde snapshot survives: for each sampled history (18 serialisable types, bincode and serde_json) the crash point is enumerated after the pre-advance and after EVERY operation; the never-serialised twin, the original and each restored copy must agree on the whole remaining history plus a 2-block drain, restored == original; destructive crash points give restores of restores. Plus complete sweeps of the durable buffer states of IsaacRng (every index) and Isaac64Rng (every index x half_used). Histories/seeds sampled, crash points and buffer states enumerated.",
+   note="Trusts bincode / serde_json / rand_core's BlockRng serde impls as part of the system under test (they run real code); corrupted images are out of scope."),
+ "C12": dict(cat="exploration", ref="3/C12", technique="deterministic simulation: JitterRng over a simulated clock (scripted readings, clock faults: stalls, backward steps, +-2^31 / 2^32 jumps, wrap-around), independent executable reference model compared on outputs and timer-read counts",
+   text="The clock is the only nondeterminism JitterRng has; it is replaced by SimClock and every reading, delta and clock fault comes from the run's PRNG. After every operation (next_u32/next_u64/fill_bytes/timer_stats/set_rounds/clone, rounds 1..=255) the output AND the cumulative number of timer readings are compared with an independent model of the documented Jitterentropy 2.1.0 procedure run on the same readings; bounded liveness: an operation that reads more than the model + 64 is aborted and reported. All u64 reading sequences cannot be enumerated; fault kinds are placed inside collections and counted.",
+   note="Trusts the harness model (LFSR taps, stuck test, rotation, stir) written from the crate documentation / statement; scripts that stay stuck >60000 readings are discarded."),
+ "C13": dict(cat="exploration", ref="3/C13", technique="deterministic simulation: test_timer over scripted clocks aimed at every failure class and every table/log2 boundary of the mean; failure predicates recomputed from the consumed clock trace",
+   text="Clock scripts for the 1+4*400 readings are generated per target class (mean sweeps incl. 0..17 and 2^k-1/2^k/2^k+1, delta_sum on k*300-1/k*300/k*300+1, zero readings, zero truncated deltas, 2..5 backward probes, 268..273 multiples of 100, 265..275 stuck probes, mixtures near +-2^31, generic hostile). The oracle recomputes the documented predicates from the readings consumed: Ok(r) only if none holds, 1<=r<=128, r*bitlen(mean)>=128, set_rounds(r) does not panic; Err(e) only if e's predicate holds on the consumed prefix.",
+   note="Assumes the documented reading layout of test_timer (4 readings per probe, 100 warm-up probes) and mean<2 as 'credits zero bits'. No precedence among simultaneously true errors is demanded."),
+ "C14": dict(cat="exploration", ref="3/C14", technique="deterministic simulation with fault injection under a catch_unwind invariant monitor in an overflow-checked build (hostile clocks, source faults, crash/restore, long histories)",
+   text="Every call into the crates runs under catch_unwind in a build with overflow-checks and debug-assertions on; a panic that is not the simulator's own clock-abort token is a violation keyed by panic site. Workloads: the generators of all other scenarios plus hostile mixes (all-0/all-FF seeds, u64 edges, every source fault, fill lengths 0..3 blocks+7, 220-op histories, jumps, serde round trips; JitterRng with +-2^31 / 2^32 jumps, backward steps, pauses and wrap-around placed densely, test_timer followed by set_rounds(result)).",
+   note="A JitterRng call that does not return within 60000 further readings is aborted by the simulated clock and discarded (documented behaviour). set_rounds(0) is never issued."),
+ "C16": dict(cat="exploration", ref="3/C16", technique="deterministic simulation: JitterRng over a simulated clock with per-call timer-read counting, lock-step twin driven with fresh-collection calls only, forked clocks for clones",
+   text="Per call, from the simulated clock's read counter: second of two consecutive next_u32 reads 0 times and the pair equals the twin's next_u64; every other output call reads >= rounds times per 64-bit value and equals the twin's value (pending half discarded, never re-served); a clone's first output reads its own forked clock >= rounds times and equals the twin clone's; the original still serves its half afterwards. Independent of what a collection computes (C12).",
+   note="fill_bytes(0) / fill_bytes(1..=4) with a half pending: both taking the half (0 reads) and discarding it are accepted (documented composition; no bit is handed out twice). timer_stats between two next_u32 is skipped."),
+ "C17": dict(cat="exploration", ref="3/C17", technique="deterministic simulation: two-run non-interference (twin runs differing only in the secret seed / clock script, same public operation history)",
+   text="Twin generators with different secrets and the same public history: {:?} and {:#?} must be byte-equal after construction and after every operation, and no numeric token of the text may equal a state word, buffered/next output word or just-returned value >= 100000. Covers XorShiftRng, Hc128Rng/Hc128Core, IsaacRng/IsaacCore, Isaac64Rng/Isaac64Core (also through a harness-built BlockRng), JitterRng.",
+   note="Words below 100000 are not searched for (chance hits on index/result_len)."),
+ "C18": dict(cat="exploration", ref="3/C18", technique="deterministic simulation replay across build configurations: one seeded corpus of simulated histories (incl. scripted-clock JitterRng), per-run digests compared between 4 (quick) / 8 (thorough) builds",
+   text="The simulator's replay-determinism check pointed at the build configuration: the same seed-derived corpus (19 deterministic types, all routes, jumps, clones; JitterRng over hostile scripted clocks; every op under catch_unwind, panics recorded as markers) is executed by the harness built from the current tree in {opt 0,3} x {overflow-checks+debug-assertions on,off} x {serde on,off}; any per-run digest difference is a violation; the replay file names the run and configurations and is cut after the first differing operation.",
+   note="x86-64 Linux only. The harness's own generation code uses wrapping arithmetic only; a harness panic is exit 2, not a violation."),
+ "C19": dict(cat="exploration", ref="3/C19", technique="deterministic simulation of schedules: seeded scheduler decides which generator instance advances next and on which OS thread (baton passing), fresh-process alone baselines; compile-time Send/Sync table",
+   text="Static: Send/Sync of all generator types by const shadowing. Dynamic: 2..6 instances (mixed types, duplicate and near-equal seeds, JitterRng over own scripted clocks) and 1..4 real OS threads; the seeded scheduler moves ownership of one instance to one thread for exactly one operation at a time (replayable), with migrations and disturbances (unrelated generators, zero-seed remap, JitterRng::new() touching JITTER_ROUNDS); instances are constructed lazily inside the schedule. Per-instance outputs must equal those of the instance alone in a fresh process and under sequential / reverse-sequential composition.",
+   note="Operation-granularity interleavings; sub-operation overlap is not explored by the registered commands (see DESIGN.md). JitterRng::new() reads the real clock and is only a disturbance whose results are never compared."),
 }
 
 def main():
